@@ -891,6 +891,79 @@ struct byvalue_runner
   }
 };
 
+// ---- connections that die during STACK UNWINDING (the scope owning the auto_connection is left by an exception): "runs a
+// connection's unregister callback exactly once when that connection dies" - however it dies
+struct unwinding_runner
+{
+  std::string name;
+  void run(std::uint64_t h, std::string const &e)
+  {
+    vf::rng g(vf::seed_for(e, h));
+    using sig_t = fcppt::signal::object<void(int), fcppt::signal::unregister::base>;
+    sig_t sig;
+    std::map<int, int> unregistered;
+    std::vector<int> called;
+    std::vector<std::optional<fcppt::signal::auto_connection>> outer;
+    std::vector<int> outer_ids;
+    int next_id = 1;
+    auto const connect = [&](int id) {
+      return sig.connect(sig_t::function{[id, &called](int) { called.push_back(id); }}, fcppt::signal::unregister::function{[id, &unregistered] { ++unregistered[id]; }});
+    };
+    unsigned const steps = 3 + static_cast<unsigned>(g.below(6));
+    for (unsigned q = 0; q < steps; ++q)
+    {
+      if (g.below(3) == 0 && outer.size() < 4)
+      {
+        int const id = next_id++;
+        vf::extend_case(" connect(%d)", id);
+        outer.emplace_back(connect(id));
+        outer_ids.push_back(id);
+        continue;
+      }
+      // a scope with 1..3 connections that is left by an exception (or, as the control, normally)
+      unsigned const n = 1 + static_cast<unsigned>(g.below(3));
+      bool const by_exception = g.below(4) != 0;
+      std::vector<int> scoped_ids;
+      vf::extend_case(" scope(%u connections,%s)", n, by_exception ? "left by an exception" : "left normally");
+      try
+      {
+        std::vector<fcppt::signal::auto_connection> scoped;
+        for (unsigned k = 0; k < n; ++k)
+        {
+          scoped_ids.push_back(next_id);
+          scoped.push_back(connect(next_id++));
+        }
+        called.clear();
+        sig(7);
+        std::vector<int> want = outer_ids;
+        want.insert(want.end(), scoped_ids.begin(), scoped_ids.end());
+        if (called != want)
+          vf::violation(name + "/call-inside-the-scope", "mismatch", "");
+        if (by_exception)
+          throw callback_fault{};
+      }
+      catch (callback_fault const &)
+      {
+      }
+      VF_COUNT("signal/unwinding/scopes");
+      if (by_exception)
+        VF_COUNT("signal/unwinding/scopes-left-by-an-exception");
+      for (int id : scoped_ids)
+        if (unregistered[id] != 1)
+          vf::violation(name + "/unregister/count-after-the-scope-was-left" + (by_exception ? "-by-an-exception" : ""), "mismatch",
+                        "the unregister callback of connection " + std::to_string(id) + " ran " + std::to_string(unregistered[id]) + " times, want 1");
+      called.clear();
+      sig(8);
+      if (called != outer_ids)
+        vf::violation(name + "/membership-after-the-scope", "mismatch", "");
+    }
+    outer.clear();
+    for (int id : outer_ids)
+      if (unregistered[id] != 1)
+        vf::violation(name + "/unregister/count", "mismatch", "connection " + std::to_string(id));
+  }
+};
+
 template <class Runner>
 void drive(std::string const &e, std::uint64_t total)
 {
@@ -929,7 +1002,7 @@ void body()
         "signal/op/signal-move-assign-empty-to-nonempty", "signal/op/destroy-signal-before-connections",
         "signal/callbacks-invoked", "signal/reentrant-calls-from-unregister", "signal/call/callback-throws", "signal/call/callback-destroys-next-connection",
         "signal/call/callback-destroys-later-connection", "signal/call/callback-destroys-previous-connection", "signal/call/callback-destroys-earlier-connection",
-        "signal/by-value/calls-with-two-or-more-connections"})
+        "signal/by-value/calls-with-two-or-more-connections", "signal/unwinding/scopes-left-by-an-exception"})
     vf::require_bucket(b);
   std::uint64_t total = vf::tier<std::uint64_t>(30000, 4000000);
   if (vf::has_extra("--small")) // the memcheck pass
@@ -944,6 +1017,7 @@ void body()
   drive<signal_runner<s_void_u, false, true>>("signal<void(int),unregister>", total / 6);
   drive<signal_runner<s_int_u, true, true>>("signal<int(int),unregister>", total / 6);
   drive<byvalue_runner>("signal-by-value-arguments", total / 10);
+  drive<unwinding_runner>("signal-connections-dying-during-unwinding", total / 20);
 }
 }
 
